@@ -296,6 +296,24 @@ Example C10_distributed_example :
   Trees.jrun (Compose.mkCfg 2 10 300%Z) (Base.mkW 1000 1050 50)%Z distributed = inl [(1000, [(0%nat, 7); (1%nat, 1)]); (1050, [(0%nat, 14); (1%nat, 1)])]%Z.
 Proof. cbv zeta. split; vm_compute; reflexivity. Qed.
 
+From Verif Require Lookback.
+
+(* The parts of a query that are pushed down run on the remote engines with the
+   lookback of the query - the one its options set, else the coordinator's -
+   whatever lookback the remote engines are configured with, through any number
+   of levels of distribution. *)
+Theorem C10_pushed_down_parts_run_with_the_query_lookback : forall remote_configured configured opts,
+  (0 <= configured)%Z ->
+  Lookback.remote_lookback remote_configured configured opts = Lookback.query_lookback configured opts.
+Proof. exact Lookback.remote_lookback_is_the_querys. Qed.
+Print Assumptions C10_pushed_down_parts_run_with_the_query_lookback.
+
+Theorem C10_nested_distribution_keeps_the_query_lookback : forall remotes configured opts,
+  (0 <= configured)%Z ->
+  Lookback.nested_remote_lookback remotes configured opts = Lookback.query_lookback configured opts.
+Proof. exact Lookback.nested_remote_lookback_is_the_querys. Qed.
+Print Assumptions C10_nested_distribution_keeps_the_query_lookback.
+
 (* PARTIAL. Proved: the shape of what is sent to the partitions, the algebra of the
    distributive reductions for every partitioning, and end to end - through the remote
    execution's read-back and the coalesce operator - per-series expressions, sum/max/min,
